@@ -153,7 +153,8 @@ def gen_uc_case(rng, with_profiles, dst_daily=False):
         # calendar-day steps of 23 / 24 / 25 h: what is tied to the step LENGTH (capacity, running consumption, running costs) is judged with the real
         # lengths; ramps and durations in steps are not sharply defined on unequal steps and are left out of this family
         for kf in ('ramp', 'last_dispatch', 'min_runtime', 'min_downtime', 'time_already_running', 'time_already_off', 'start_ramp_lower_bounds', 'start_ramp_upper_bounds',
-                   'shutdown_ramp_lower_bounds', 'shutdown_ramp_upper_bounds', 'ramp_freq'):
+                   'shutdown_ramp_lower_bounds', 'shutdown_ramp_upper_bounds', 'ramp_freq', 'start_ramp_lower_bounds_heat', 'start_ramp_upper_bounds_heat',
+                   'shutdown_ramp_lower_bounds_heat', 'shutdown_ramp_upper_bounds_heat'):
             a.pop(kf, None)
         if fuel and rng.random() < 0.7:
             a['consumption_if_on'] = gen.r2(gen.pick(rng, [0.1, 0.5]) * f)
@@ -261,13 +262,22 @@ def run_m6bc(rng, tier, case, reference):
             else:
                 prof_known = True
                 st_i = np.round(np.nan_to_num(start)).astype(int); sh_i = np.round(np.nan_to_num(shut)).astype(int)
+                hprof_lo = np.full(T, np.nan); hprof_hi = np.full(T, np.nan)
                 for t in range(T):
                     for j in range(k_s):
                         if t - j >= 0 and st_i[t - j] == 1:
                             prof_lo[t] = a['start_ramp_lower_bounds'][j] * step; prof_hi[t] = a['start_ramp_upper_bounds'][j] * step
+                            if a.get('start_ramp_upper_bounds_heat'):
+                                hprof_lo[t] = a['start_ramp_lower_bounds_heat'][j] * step; hprof_hi[t] = a['start_ramp_upper_bounds_heat'][j] * step
                     for j in range(k_d):
                         if t + j + 1 < T and sh_i[t + j + 1] == 1:
                             prof_lo[t] = a['shutdown_ramp_lower_bounds'][j] * step; prof_hi[t] = a['shutdown_ramp_upper_bounds'][j] * step
+                            if a.get('shutdown_ramp_upper_bounds_heat'):
+                                hprof_lo[t] = a['shutdown_ramp_lower_bounds_heat'][j] * step; hprof_hi[t] = a['shutdown_ramp_upper_bounds_heat'][j] * step
+                inh = ~np.isnan(hprof_lo)
+                if inh.any():
+                    case.check('uc.heat_ramp_profile_bounds', bool(np.all(heat[inh] >= hprof_lo[inh] - 1e-5 * (1 + mx.max())) and np.all(heat[inh] <= hprof_hi[inh] + 1e-5 * (1 + mx.max()))),
+                               **who, heat=heat[inh][:6].tolist(), lo=hprof_lo[inh][:6].tolist(), hi=hprof_hi[inh][:6].tolist())
         else:
             prof_known = True
         inprof = ~np.isnan(prof_lo)
